@@ -337,6 +337,10 @@ def _marker_part(ctx):
 
 
 def run(ctx):
+    if ctx.shard == 0:  # the repository's own pinned examples as one more workload (outcomes ignored)
+        from ..repotests import run_repo_tests
+
+        run_repo_tests(ctx, ("marker", "specifier"))
     _spec_part(ctx)
     _marker_part(ctx)
     ctx.extra["zoo_specifiers"] = len(ctx.zoo_spec)
@@ -348,5 +352,10 @@ def run(ctx):
 
 
 def replay(ctx, case):
+    if isinstance(case, dict) and case.get("kind") == "repo-test":
+        from ..repotests import run_repo_tests
+
+        run_repo_tests(ctx, nodeid=case["nodeid"])
+        return
     # zoo checks are not case-local: re-run the whole (seeded) shard workload
     run(ctx)
